@@ -101,6 +101,58 @@ def storage_subscript(n):
     return None
 
 
+BULK = ("std::copy", "std::move", "std::copy_n", "std::fill", "std::fill_n", "std::uninitialized_copy", "std::uninitialized_move",
+        "std::uninitialized_copy_n", "std::uninitialized_fill", "std::uninitialized_fill_n")
+
+
+def own_offset(za, x):
+    """(var, const) offset into the storage of *this if x is begin()/end()/data_.get()/&data_[k] (+ k); None otherwise"""
+    x = ir.unwrap(x)
+    if not isinstance(x, dict):
+        return None
+    if x.get("k") == "call" and short(x.get("name") or "") in ("begin", "cbegin", "end", "cend") and (x.get("this") is None or is_this(x.get("this"))) and not x.get("args"):
+        return (Z, 0) if "begin" in short(x["name"]) else ("size_", 0)
+    if x.get("k") == "call" and short(x.get("name") or "") in ("get", "data") and x.get("this") is not None and fmt(ir.unwrap(x["this"])) in ("data_", "this"):
+        return (Z, 0)
+    u = ir.as_unop(x)
+    if u and u[0] == "&":
+        su = ir.unwrap(u[1])
+        if isinstance(su, dict) and su.get("k") == "subscript" and storage_subscript(su) is not None:
+            return za.lin(storage_subscript(su))
+        return None
+    bo = ir.as_binop(x)
+    if bo and bo[0] in ("+", "-"):
+        base = own_offset(za, bo[1])
+        k = za.lin(bo[2])
+        if base is not None and k is not None and (k[0] == Z or base[0] == Z):
+            sgn = 1 if bo[0] == "+" else -1
+            if k[0] == Z:
+                return (base[0], base[1] + sgn * k[1])
+            if sgn == 1:
+                return (k[0], base[1] + k[1])
+    return None
+
+
+def range_len(za, first, last):
+    """(var, const) number of elements in [first, last): v.begin()..v.end() of a fixed_vector object -> v.size_; own range -> difference"""
+    f, l = ir.unwrap(first), ir.unwrap(last)
+    if isinstance(f, dict) and isinstance(l, dict) and f.get("k") == "call" and l.get("k") == "call":
+        fn_, ln_ = short(f.get("name") or ""), short(l.get("name") or "")
+        if fn_ in ("begin", "cbegin") and ln_ in ("end", "cend") and f.get("this") is not None and l.get("this") is not None and fmt(f["this"]) == fmt(l["this"]):
+            o = ir.unwrap(f["this"])
+            if isinstance(o, dict) and o.get("k") == "ref":
+                return (o["decl"].split(":", 1)[1] + ".size_", 0)
+            if is_this(o):
+                return ("size_", 0)
+    a, b = own_offset(za, first), own_offset(za, last)
+    if a is not None and b is not None:
+        if a[0] == b[0]:
+            return (Z, b[1] - a[1])
+        if a[0] == Z:
+            return (b[0], b[1] - a[1])
+    return None
+
+
 def invariant(z, prefix=""):
     z.add(Z, prefix + "size_", 0)
     z.add(prefix + "size_", prefix + "capacity_", 0)
@@ -142,6 +194,23 @@ class FVAnalysis:
                 if a is n.get("args", [None])[0] or nm in ("swap", "iter_swap"):
                     z.assign(W, za.lin(storage_subscript(au)))
                     self._ev("slot_write", au, z, n)
+        # range algorithms that write into the storage: std::copy/move(first, last, dest), copy_n(first, n, dest), fill(b, e, v), fill_n(dest, n, v)
+        full = n.get("name") or ""
+        if full in BULK and not n.get("this"):
+            args = [a for a in n.get("args", []) if not (isinstance(a, dict) and a.get("k") == "defarg")]
+            dst = ln = None
+            if full in ("std::copy", "std::move", "std::uninitialized_copy", "std::uninitialized_move") and len(args) == 3:
+                dst, ln = own_offset(za, args[2]), range_len(za, args[0], args[1])
+            elif full in ("std::copy_n", "std::uninitialized_copy_n") and len(args) == 3:
+                dst, ln = own_offset(za, args[2]), za.lin(args[1])
+            elif full in ("std::fill", "std::uninitialized_fill") and len(args) == 3:
+                dst = own_offset(za, args[0])
+                e2 = own_offset(za, args[1])
+                ln = ("$end", e2) if e2 is not None else None
+            elif full in ("std::fill_n", "std::uninitialized_fill_n") and len(args) == 3:
+                dst, ln = own_offset(za, args[0]), za.lin(args[1])
+            if dst is not None:
+                self._ev("bulk_write", n, z, (dst, ln))
         # member function of *this that may change the size (non-const / unresolved): havoc size_, assume its postcondition I
         if th is not None and is_this(th) or (n.get("dep") and th is None and nm in self.method_names()):
             cid = n.get("callee")
@@ -298,6 +367,8 @@ def run(ctx):
     n_sub = 0
     n_ctor = 0
     cap_writers = []
+    n_bulk = [0]
+    relies = {}
     for f in sorted(methods, key=lambda f: (f.line, f.id)):
         is_ctor = f.kind == "ctor"
         is_assign = f.op == "="
@@ -411,6 +482,50 @@ def run(ctx):
                 ctx.check(bool(lt), "R06.4", f, "checked-against-size:%s:%s" % (tag, fmt(idx)),
                           "%s accesses data_[%s] without `%s < size_` being established: an index not below size() is accepted (exposes a slot the caller never filled)"
                           % (short(f.qual), fmt(idx), fmt(idx)), (f, node.get("ln")))
+        # ---- R06.3 on range algorithms writing into the storage
+        for (kind, node, z, b, e, extra) in a.events:
+            if kind != "bulk_write":
+                continue
+            dst, ln = extra
+            n_bulk[0] += 1
+            hi_ok = False
+            if ln is not None and ln[0] == "$end":
+                endo = ln[1]
+                hi_ok = endo is not None and (z.entails(endo[0], "capacity_", -endo[1]) if endo[0] != Z else z.entails(Z, "capacity_", -endo[1]))
+                desc = "[%s, %s)" % (_show_t(dst), _show_t(endo))
+            elif ln is not None:
+                desc = "[%s, %s + %s)" % (_show_t(dst), _show_t(dst), _show_t(ln))
+                # dst + len <= capacity_
+                if dst[0] == Z:
+                    hi_ok = z.entails(ln[0], "capacity_", -(ln[1] + dst[1])) if ln[0] != Z else z.entails(Z, "capacity_", -(ln[1] + dst[1]))
+                elif ln[0] == Z:
+                    hi_ok = z.entails(dst[0], "capacity_", -(ln[1] + dst[1]))
+                else:
+                    hi_ok = False
+            else:
+                desc = "[%s, ?)" % _show_t(dst)
+            ctx.check(bool(hi_ok), "R06.3", f, "bulk-write-in-bounds:%s@%s" % (tag, node.get("ln")),
+                      "%s writes the slots %s with %s and `end <= capacity_` is not provable [known there: %s]" % (short(f.qual), desc, short(node.get("name") or ""), z.show()[:160]), (f, node.get("ln")))
+        # writes that are justified by capacity_ alone (not below size_) need the storage to exist whenever capacity_ > 0
+        if not is_ctor:
+            # blocks in which *this receives storage (assignment / swap of data_): a write dominated by one of them has its own storage
+            sblocks = {b for (kind, node, z, b, e, extra) in a.events if kind == "assign" and a.za.varname(ir.unwrap(node.get("l"))) == "data_"}
+            for bb, ii, ee in f.roots():
+                for n in walk(ee["expr"]):
+                    if n.get("k") == "call" and short(n.get("name") or "") == "swap" and "data_" in fmt(n):
+                        sblocks.add(bb)
+            dom = cfg.dominators(f)
+            for (kind, node, z, b, e, extra) in a.events:
+                if kind not in ("subscript_write", "slot_write", "bulk_write"):
+                    continue
+                if kind == "bulk_write":
+                    below = False
+                else:
+                    t = a.za.lin(storage_subscript(node))
+                    below = t is not None and t[0] != Z and z.entails(t[0], "size_", -t[1] - 1)
+                fresh = any(sb in dom.get(b, ()) for sb in sblocks)
+                if not below and not fresh:
+                    relies.setdefault(f.id, (f, node.get("ln")))
         # ---- R06.4 / R06.5 on size_ updates
         for (kind, node, z, b, e, extra) in a.events:
             if kind != "incdec":
@@ -502,6 +617,14 @@ def run(ctx):
                 ctx.check(ok_all, "R06.7", f, "moved-from-%s-zeroed:%s" % (fld, tag),
                           "%s moves the storage out of `%s` but leaves %s.%s unchanged: the moved-from container reports a %s it no longer has (null storage)"
                           % (short(f.qual), src, src, fld, "size" if fld == "size_" else "capacity"), (f, n.get("ln")))
+    # ---- R06.7 (consequence): every function that writes a slot at or beyond size_ trusts "capacity_ > 0 => storage exists".
+    # While a moved-from object keeps its capacity over null storage (above), each of them writes through a null pointer
+    # when called on such an object - one obligation per function, so that a NEW function of that kind is reported.
+    broken_inv = [o for o in ctx.obs if o.rule == "R06.7" and o.status != "ok" and "capacity_" in o.construct]
+    for fid, (f, ln) in sorted(relies.items()):
+        ctx.check(not broken_inv, "R06.7", f, "storage-exists-for-write:" + C06_sig(f),
+                  "%s writes slots at or beyond size_ (line %s) trusting `capacity_ > 0 => storage exists`, which a moved-from object violates: called on a moved-from container it "
+                  "writes through a null pointer" % (short(f.qual), ln), (f, ln), why_ok="capacity_ implies storage (moved-from objects have capacity 0)")
     # ---- R06.9: the iterator accessors delimit exactly the filled prefix [0, size_)
     ctx.rule("R06.9", "begin()/cbegin() address slot 0, end()/cend() slot size_ (reverse iterators are built on them): iteration never reaches an unfilled slot")
     n_ptr = 0
@@ -632,3 +755,15 @@ def _sig(f):
 
 def _is_range_op(f):
     return any(p.get("name") in ("start", "end", "first", "last") or "Iter" in (p.get("type") or "") or "initializer_list" in (p.get("type") or "") for p in f.params)
+
+
+def _show_t(t):
+    if t is None:
+        return "?"
+    if t[0] == Z:
+        return str(t[1])
+    return t[0] + ("" if not t[1] else " + %d" % t[1] if t[1] > 0 else " - %d" % -t[1])
+
+
+def C06_sig(f):
+    return _sig(f)
